@@ -10,7 +10,7 @@ Open Scope Z_scope.
 Definition dec_fr (v : val) : option fr :=
   match v with
   | VL [VZ 0; VZ t] => Some (FCtl t)
-  | VL [VZ 1; VZ s; VZ a; VZ l; VZ e] => Some (FData s (if l =? 0 then 0 else a) l (negb (e =? 0)))   (* an empty payload has no first byte *)
+  | VL [VZ 1; VZ s; VZ a; VZ l; VZ e] => Some (FData s a l (negb (e =? 0)))
   | VL [VZ 2; VZ s; VZ t] => Some (FHdr s t)
   | _ => None
   end.
@@ -39,8 +39,14 @@ Definition enc_sop (o : sop) : val :=
   | SWin s n => VL [VZ 5; VZ s; VZ n]
   | SMax m => VL [VZ 6; VZ m]
   end.
+(* an empty payload has no first byte: the start value of a zero-length DATA frame is irrelevant, use 0 *)
+Definition norm_sop (o : sop) : sop :=
+  match o with
+  | SAdd (FData s a l e) => SAdd (FData s (if l =? 0 then 0 else a) l e)
+  | _ => o
+  end.
 Definition dec_sops (v : val) : option (list sop) :=
-  match v with VL l => all_some (map dec_sop l) | _ => None end.
+  match v with VL l => option_map (map norm_sop) (all_some (map dec_sop l)) | _ => None end.
 Definition enc_sops (ops : list sop) : val := VL (map enc_sop ops).
 
 Definition enc_sobs (o : sobs) : val :=
@@ -74,7 +80,7 @@ Definition dec_steps (v : val) : option (list (sobs * (Z * list Z))) :=
 
 (* ---- live connection inputs: [7 [step ...]] ; step = [1 sid n] request | [3 sid] RST | [4 sid inc] WINDOW_UPDATE
         | [5 v] SETTINGS_INITIAL_WINDOW_SIZE | [6 v] SETTINGS_MAX_FRAME_SIZE
-   observation: one list per step of frames received in order: [0 sid len es] DATA | [1] SETTINGS ack | [2] GOAWAY/closed *)
+   observation: one list per step of frames received in order: [0 sid len es good] DATA | [1] SETTINGS ack | [2] GOAWAY/closed *)
 Definition dec_lstep (v : val) : option lstep :=
   match v with
   | VL [VZ 1; VZ s; VZ n] => Some (LReq s n)
@@ -91,7 +97,7 @@ Definition dec_live (v : val) : option (list lstep) :=
   end.
 Definition dec_levent (v : val) : option levent :=
   match v with
-  | VL [VZ 0; VZ s; VZ n; VZ e] => Some (EData s n (negb (e =? 0)))
+  | VL [VZ 0; VZ s; VZ n; VZ e; VZ g] => Some (EData s n (negb (e =? 0)) (negb (g =? 0)))
   | VL [VZ 1] => Some EAck
   | VL [VZ 2] => Some EDead
   | _ => None
@@ -101,6 +107,13 @@ Definition dec_lobs (v : val) : option (list (list levent)) :=
   | VL l => all_some (map (fun x => match x with VL es => all_some (map dec_levent es) | _ => None end) l)
   | _ => None
   end.
+Definition enc_levent (e : levent) : val :=
+  match e with
+  | EData s n e g => VL [VZ 0; VZ s; VZ n; VZ (if e then 1 else 0); VZ (if g then 1 else 0)]
+  | EAck => VL [VZ 1]
+  | EDead => VL [VZ 2]
+  end.
+Definition enc_lobs (l : list (list levent)) : val := VL (map (fun es => VL (map enc_levent es)) l).
 (* the client-side window accounting accepts the frames the real server sent *)
 Definition live_ok (script : list lstep) (o : val) : bool :=
   match dec_lobs o with
@@ -110,7 +123,7 @@ Definition live_ok (script : list lstep) (o : val) : bool :=
 
 Definition run_C34 (i : val) : val :=
   match dec_live i with
-  | Some _ => VL [VZ 7]           (* no canonical trace: the amount of DATA per step is timing dependent *)
+  | Some script => enc_lobs (lcanon script)   (* one allowed trace (no DATA at all); the real amount is timing dependent *)
   | None =>
   match dec_sops i with
   | None => VErr 0
@@ -145,3 +158,10 @@ Definition prop_C34 (i o : val) : bool :=
   end.
 
 Definition kf_C34 (i : val) : Z := 0.
+
+(* executable well-formedness of an input: a live script, or scheduler operations within wf_sop *)
+Definition wf_C34 (i : val) : bool :=
+  match dec_live i with
+  | Some _ => true
+  | None => match dec_sops i with Some ops => forallb wf_sopb ops | None => false end
+  end.
